@@ -230,6 +230,25 @@ func cmdSweepClaim() int {
 			names = append(names, fmt.Sprintf("%s/%s#* %d", r.Key, k, kindN[k]))
 		}
 	}
+	if rep := os.Getenv("GOVC_SWEEP_REPORT"); rep != "" {
+		// full verdict list (development aid: triage of refuted sites)
+		var rb strings.Builder
+		for _, r := range results {
+			if r.Err != "" {
+				fmt.Fprintf(&rb, "ERR\t%s\t%s\n", r.Key, firstLines(r.Err, 1))
+			}
+			for _, o := range r.Obls {
+				st := "unsolved"
+				if o.Res != nil {
+					st = o.Res.Status
+				}
+				if st != "unsat" {
+					fmt.Fprintf(&rb, "%s\t%s\t%s\n", st, o.Name, o.Pos)
+				}
+			}
+		}
+		os.WriteFile(rep, []byte(rb.String()), 0o644)
+	}
 	var sb strings.Builder
 	sb.WriteString("# C09 sweep: per function and safety kind, all obligations of that kind proved on the unchanged tree (count after the name is informational)\n")
 	for _, n := range names {
